@@ -224,10 +224,6 @@ def _locate_droplets_in_mask_spherical(mask: ScalarField) -> Emulsion:
         return Emulsion.empty(example_drop)
 
 
-class _SpanningDropletSignal(RuntimeError):
-    """Exception signaling that an untypical droplet spanning the system was found."""
-
-
 def _locate_droplets_in_mask_cylindrical_single(
     grid: CylindricalSymGrid,
     mask: np.ndarray,
@@ -261,9 +257,17 @@ def _locate_droplets_in_mask_cylindrical_single(
     for index, slices in enumerate(object_slices, 1):
         if slices[0].start == 0:  # contains point on symmetry axis
             indices.append(index)
-            if slices[1].start == 0 and slices[1].stop == mask.shape[1] > grid.shape[1]:
-                # the "droplet" extends the entire z-axis of the padded image
-                raise _SpanningDropletSignal
+            if (
+                z_cell_range is not None
+                and slices[1].start == 0
+                and slices[1].stop == mask.shape[1] > grid.shape[1]
+            ):
+                # the "droplet" extends the entire z-axis of the padded image, so it
+                # winds around the periodic axis. We represent it by the part that lies
+                # in the requested range, which contains each of its cells exactly once
+                outside = labels == index
+                outside[:, z_cell_range[0] : z_cell_range[1]] = False
+                labels[outside] = 0
         else:
             _logger.warning("Found object not located on symmetry axis")
 
@@ -327,29 +331,23 @@ def _locate_droplets_in_mask_cylindrical(mask: ScalarField) -> Emulsion:
         mask_padded = np.pad(mask.data, [[0, 0], [dim_z, dim_z]], mode="wrap")
         assert mask_padded.shape == (dim_r, 3 * dim_z)
 
-        # locate droplets in the extended image
-        try:
-            # only keep droplets that are inside the central area, i.e., the original box
-            droplets = _locate_droplets_in_mask_cylindrical_single(
-                grid, mask_padded, z_cell_range=(dim_z, 2 * dim_z)
-            )
-        except _SpanningDropletSignal:
-            pass
-        else:
-            _logger.info("Found %d central droplets.", len(droplets))
+        # locate droplets in the extended image, but only keep droplets that are inside
+        # the central area, i.e., the original box
+        droplets = _locate_droplets_in_mask_cylindrical_single(
+            grid, mask_padded, z_cell_range=(dim_z, 2 * dim_z)
+        )
+        _logger.info("Found %d central droplets.", len(droplets))
 
-            for droplet in droplets:
-                # correct for the additional padding of the array
-                droplet.position[2] -= grid.length
+        for droplet in droplets:
+            # correct for the additional padding of the array
+            droplet.position[2] -= grid.length
 
-            # filter overlapping droplets (e.g. due to duplicates)
-            droplets.remove_overlapping()
-            return droplets
+        # filter overlapping droplets (e.g. due to duplicates)
+        droplets.remove_overlapping()
+        return droplets
 
     # simply locate droplets in the mask
-    droplets = _locate_droplets_in_mask_cylindrical_single(mask.grid, mask.data)
-
-    return droplets
+    return _locate_droplets_in_mask_cylindrical_single(mask.grid, mask.data)
 
 
 def locate_droplets_in_mask(mask: ScalarField) -> Emulsion:
